@@ -827,6 +827,9 @@ class Engine:
         n = it["n"]
         nz = to_int(n)
         inv = (spec.inv if spec is not None else None)
+        if inv is None:
+            # no invariant: everything the loop may assign is havocked; counter-models that pass through here may be spurious
+            self.abstracted.add("loop without invariant (state havocked): for " + unparse(s.target) + " in " + unparse(s.iter)[:60])
         # kinds of lists that are still untyped: probe the body once
         self.probe_kinds(s, st, it)
         # 1. invariant holds on entry
